@@ -132,7 +132,11 @@ func (g *Gen) amountLE(max *big.Rat, p int) string {
 		return FmtDec(u, p)
 	}
 	var r *big.Rat
-	switch g.R.Weighted([]float64{3, 2, 3, 4, 2, 1, 1.5}) {
+	w := []float64{3, 2, 3, 4, 2, 1, 1.5}
+	if max.Cmp(RatInt(pow10(300))) > 0 {
+		w = []float64{2, 4, 3, 1, 1, 1, 3} // astronomic holdings: everything, half, a round part - or the smallest unit
+	}
+	switch g.R.Weighted(w) {
 	case 6: // one or two significant digits at the magnitude of max: d x 10^k (many trailing zeros when max is large)
 		k := len(RatFloor(max).String()) - 1 - g.R.Range(0, 2)
 		if k < 0 {
@@ -160,7 +164,14 @@ func (g *Gen) amountLE(max *big.Rat, p int) string {
 	if r.Sign() <= 0 || r.Cmp(max) > 0 {
 		r = new(big.Rat).Set(max)
 	}
-	return g.styleDec(FmtDec(r, p), p)
+	out := FmtDec(r, p)
+	if len(out) > 300 && !strings.Contains(out, ".") {
+		// a number of hundreds of digits is written the way it was issued: coefficient and exponent
+		if t := strings.TrimRight(out, "0"); len(out)-len(t) > 100 && len(t) > 0 {
+			return t + "e" + fmt.Sprint(len(out)-len(t))
+		}
+	}
+	return g.styleDec(out, p)
 }
 
 func truncTo(r *big.Rat, p int) *big.Rat {
@@ -180,6 +191,11 @@ func (g *Gen) issueAmount(p int) string {
 	case 3:
 		return FmtDec(unit(p), p)
 	case 4: // very large (wide domain)
+		if g.R.Chance(0.08) || ((g.W.Property == "C12" || g.W.Property == "C06") && g.R.Chance(0.3)) {
+			// as large as a decimal string can say it: an exponent at the edge of what the decimal library allows
+			g.W.Probe("amount_with_exponent_near_100000")
+			return Pick(g.R, []string{"1e100000", "2e100000", "4e99999", "3e99990"})
+		}
 		digits := g.R.Range(20, 40)
 		if g.R.Chance(0.3) {
 			// a round very large number
